@@ -291,6 +291,9 @@ func printSummary(cfg *checkCfg, agg *aggregate, wall float64) {
 var expectedProbes = map[string][]string{
 	"reuse": {"probe.shaper_cache_other_face_of_same_font", "probe.shaper_cache_eviction_possible", "probe.shape_after_in_place_face_change",
 		"probe.hb_buffer_reused", "probe.segmenter_reused", "probe.wrapper_reused", "probe.wrapper_paragraph_abandoned", "probe.useg_reused"},
+	"indexsim": {"probe.entry_reused", "probe.entry_rescanned", "probe.entry_dropped", "probe.symlink", "probe.rename", "probe.crash_image_decoded_as_error",
+		"probe.crash_image_decoded_as_new", "probe.crash_image_decoded_as_old", "fault.crash_model_0", "fault.crash_model_1", "fault.crash_model_2", "fault.crash_model_3", "fault.crash_model_4",
+		"fault.cache_bytes_corrupted", "fault.write_eio", "fault.write_enospc", "fault.write_short", "fault.mtime_collision", "fault.enumerated_prefixes", "probe.half_copied_font"},
 	"fontmapsim": {"probe.repeat_lookup_cache_enabled", "probe.lookup_after_other_lookups", "probe.cache_eviction", "probe.add_after_lookups", "probe.system_fonts_used",
 		"answered_by_step_1", "answered_by_step_2", "answered_by_step_3", "answered_by_step_4", "answered_by_step_5"},
 }
